@@ -25,7 +25,7 @@ func init() {
 		MinNontriv:  3375 + 32,
 		Cases: func(tier string) int {
 			if tier == "thorough" {
-				return 15 + 1 + 200
+				return 15 + 1 + 4000
 			}
 			return 15 + 1 + 20
 		},
